@@ -100,7 +100,7 @@ Proof. intros Hn Hc. unfold cl_enabled. cbn [cl_step]. rewrite Hn, Hc. destruct 
 Definition cl_client_holding (c : cl_client) : bool :=
   match c with ClHold _ _ | ClSent _ => true | _ => false end.
 Definition cl_worker_holding (w : cl_worker) : bool :=
-  match w with WSweepHold _ => true | _ => false end.
+  match w with ClwSweepHold _ => true | _ => false end.
 
 Lemma cl_not_locked s sh :
   existsb cl_client_holding (cl_clients s) = false ->
@@ -146,7 +146,7 @@ Proof.
       - eapply cl_enabled_worker; [exact Hn|]. cbn -[Nat.ltb]. reflexivity. }
   (* all workers idle; there is at least one *)
   destruct (cl_workers s) as [|w0 ws] eqn:HWs; [cbn in Hpar; lia|].
-  assert (Hw0 : w0 = WIdle).
+  assert (Hw0 : w0 = ClwIdle).
   { cbn in HW. apply andb_prop in HW. destruct HW as [H0 _]. destruct w0; try discriminate. reflexivity. }
   subst w0.
   destruct (0 <? cl_queue s) eqn:Hq.
